@@ -282,13 +282,24 @@ def r_convert(ck: Checker) -> None:
     func = ck.func(f"{CLS}.Mapper.convert")
     it = ck.interp(func)
     args = func.params()[1]
-    rr = ck.func(f"{CLS}.Mapper.convert.<locals>.replace_rest")
+    # the anonymising callback: the function bound with partial(...) in convert that can return the variable `_`
+    # (a nested function or a module-level helper, whatever it is called)
+    def _anon_returns(f):  # type: ignore[no-untyped-def]
+        return [r for r, st in ck.interp(f).returns if r.value is not None and unparse(r.value).replace(" ", "") in ("Variable(LOC,'_')", 'Variable(LOC,"_")')]
+
+    cands = []
+    for c in calls_in(func, lambda c: unparse(c.func) == "partial" and bool(c.args)):
+        q = ck.prg.resolve_callee(func, c.args[0])
+        if q in ck.prg.funcs and _anon_returns(ck.prg.funcs[q]):
+            cands.append((c, ck.prg.funcs[q]))
+    ck.need(len(cands) == 1, "convert binds one anonymising callback with partial(...)")
+    rr = cands[0][1]
     itr = ck.interp(rr)
     inp, keep = rr.params()[:2]
-    anon = [r for r, st in itr.returns if r.value is not None and unparse(r.value).replace(" ", "") in ("Variable(LOC,'_')", 'Variable(LOC,"_")')]
+    anon = _anon_returns(rr)
     ck.need(len(anon) == 1, "replace_rest anonymises at one site")
     ck.guard("a variable is anonymised only if it does not occur at the use site", rr, anon[0], f"{inp} not in {keep}", "")
-    binds = [c for c in calls_in(func, lambda c: unparse(c.func) == "partial" and c.args and unparse(c.args[0]) == rr.qualname.split(".")[-1])]
+    binds = [cands[0][0]]
     ck.need(len(binds) == 1 and kwarg(binds[0], keep) is not None, "replace_rest is applied with the use-site variables bound")
     keepname = unparse(kwarg(binds[0], keep))  # type: ignore[arg-type]
     ups = [c for c in attr_calls(func, "update") if unparse(c.func.value) == keepname]  # type: ignore[attr-defined]
@@ -306,6 +317,21 @@ def r_convert(ck: Checker) -> None:
     if init is not None:
         detail = f"{keepname} = `{unparse(init)}`"
         good = same(unparse(init), f"set(collect_ast({args}, 'Variable'))")
+    # every head variable of the copy rule is replaced in every argument: no early exit from the substitution loops
+    subst = [c for c in calls_in(func, lambda c: unparse(c.func) == "partial" and bool(c.args)) if c is not binds[0]]
+    ck.need(len(subst) == 1, "convert substitutes head variables with one partial(...) callback")
+    inner = enclosing_loop(func, subst[0])
+    outer = enclosing_loop(func, inner) if inner is not None else None
+    ck.need(inner is not None and outer is not None, "the substitution runs in a loop over the head variables inside a loop over the arguments")
+    pairs = unparse(inner.iter).replace(" ", "")  # type: ignore[union-attr]
+    ok_all = True
+    for lp, site in ((inner, subst[0]), (outer, inner)):
+        okk, n_it = every_iteration_reaches(ck, func, lp, site, None)  # type: ignore[arg-type]
+        exits = [x for x in ast.walk(lp) if isinstance(x, (ast.Break, ast.Return))]  # type: ignore[arg-type]
+        ok_all = ok_all and okk and n_it > 0 and not exits
+    ck.add("every head variable is substituted in every argument of the copied atom", ok_all and pairs == f"zip(self.arguments,{args})", func, subst[0],
+           f"substitution unconditional in both loops and no early exit: {ok_all}; pairs from `{pairs}`",
+           "`link(r(X,Y),C)` holds two head variables in one argument: stopping after the first replacement leaves Y unsubstituted, it is then anonymised and the join is lost")
     ck.add("the use-site variables are ALL variables inside the use-site arguments (also nested in function terms)", good, func, binds[0], detail or "no collection of the use-site variables found",
            "`at(O,pos(R,C))` passes R inside a term: if only top-level arguments count, R is replaced by `_` and the join on R is lost")
 
